@@ -122,8 +122,14 @@ def run(prop, tier, seed):
         if gap:
             print('COVERAGE-GAP property=C11 link-state TLV types registered by yabgp but unknown to spec/WireTlv.tla: %s' % gap)
         jobs = []
+        grids = {f: gen(f, 1) for f in ('capgrid', 'attrgrid', 'mpgrid')}
         for ep, hx in ls['vecs'] + sid['vecs']:
             jobs.append((ep, hx, 'tlvgrid'))
+        for f, g in grids.items():
+            for ep, hx in g['vecs']:
+                jobs.append((ep, hx, f))
+                if ep == 'Update.parse':
+                    jobs.append(('Update.parse/as2', hx, f))
         for ep, hx in short['vecs']:
             n = len(hx) // 2
             jobs.append(('*' if (n <= 1 or tier == 'thorough') else 'top', hx, 'short%d' % n))
@@ -177,11 +183,11 @@ def run(prop, tier, seed):
             smp = [json.loads(next(fh)) for _ in range(3)]
         cov = {'evaluations': ncalls, 'distinct_nontrivial': len(classes),
                'rule': 'TLC enumerates every octet string of length <= 2 (65,793) and the TLV grids (every link-state / prefix-SID TLV type of the spec table x sub-length 0..16 x 5 body '
-                       'patterns, plus lying length fields); each is handed to the real decoder entry points (12 top-level incl. Update.parse in 3 modes; 23 attribute/NLRI level for '
+                       'patterns, plus lying length fields), the OPEN capability grid (13 codes x length 0..16 x patterns, three packagings, lying lengths), the path-attribute grid (24 type codes x 3 flag values x length 0..16 x patterns, with and without extended length) and the MP_REACH / MP_UNREACH grid (19 AFI/SAFI x 6 next-hop lengths x NLRI patterns); each is handed to the real decoder entry points (12 top-level incl. Update.parse in 3 modes; 23 attribute/NLRI level for '
                        'strings <= 1 octet, thorough: <= 2) under the line-count meter; plus every bytes literal of the unit tests, 1-octet mutations of reference UPDATE encodings, '
                        'mutated literals and seeded random / repeated-octet strings up to 4096 octets; distinct = (entry point, input class, length class)',
                'samples': smp, 'calls_per_entry_point': eps, 'max_work_per_entry_point': maxratio, 'work_bound': {'WA': WA, 'WB': WB},
-               'tlc': {'lsgrid': ls['stats'], 'sidgrid': sid['stats'], 'short': short['stats']}, 'coverage_gap_ls_types': gap,
+               'tlc': dict({'lsgrid': ls['stats'], 'sidgrid': sid['stats'], 'short': short['stats']}, **{f: g['stats'] for f, g in grids.items()}), 'coverage_gap_ls_types': gap,
                'lines_validated_by_tlc': vst.get('distinct', 1) - 1, 'rejected': len(rej), 'binding_selftest': {'rejected_as_required': True},
                'exhaustive': False}
         rc = v.finish()
